@@ -539,9 +539,62 @@ theorem scan_tok_spec (c : Char) (cs : List Char) (t : Tok) (n : Nat) (h : scan 
         simp [Tok.text, take_length_takeWhile]
       · rw [if_neg h16] at h; simp at h
 
-/-- what the lexer may skip: a whitespace character, a `#` comment, a `/*` comment -/
+/-- what the lexer may skip, exactly: one whitespace character; a `#` comment — `#`, a body without
+newline characters, then the whole run of newline characters that follows (empty only at the end
+of the text); a block comment `/*` body `*/` -/
 def isTrivia (K : Classes) (s : List Char) : Prop :=
-  (∃ w, s = [w] ∧ K.ws w = true) ∨ (∃ r, s = '#' :: r) ∨ (∃ r, s = '/' :: '*' :: r)
+  (∃ w, s = [w] ∧ K.ws w = true) ∨
+  (∃ body nls, s = '#' :: (body ++ nls) ∧ body.all (fun c => !isNL c) = true ∧ nls.all isNL = true) ∨
+  (∃ body, s = '/' :: '*' :: (body ++ ['*', '/']))
+
+theorem all_takeWhile (p : Char → Bool) : ∀ l : List Char, (l.takeWhile p).all p = true := by
+  intro l
+  induction l with
+  | nil => rfl
+  | cons a as ih =>
+    simp only [List.takeWhile]
+    split
+    · rename_i h; simp [h, ih]
+    · rfl
+
+theorem lineComment_take : ∀ cs : List Char,
+    cs.take (lineCommentLen cs) =
+      cs.takeWhile (fun c => !isNL c) ++ (cs.dropWhile (fun c => !isNL c)).takeWhile isNL := by
+  intro cs
+  induction cs with
+  | nil => rfl
+  | cons c cs ih =>
+    by_cases hc : isNL c = true
+    · simp only [lineCommentLen, hc, if_true, List.takeWhile, List.dropWhile, Bool.not_true, List.nil_append]
+      rw [Nat.add_comm, List.take_succ_cons, take_length_takeWhile]
+    · simp only [Bool.not_eq_true] at hc
+      simp only [lineCommentLen, hc, Bool.false_eq_true, if_false, List.takeWhile, List.dropWhile, Bool.not_false,
+        List.cons_append]
+      rw [Nat.add_comm, List.take_succ_cons, ih]
+
+theorem blockEnd_take : ∀ (l : List Char) (e : Nat), blockEnd l = some e → ∃ body, l.take e = body ++ ['*', '/'] := by
+  intro l
+  induction l with
+  | nil => intro e h; simp [blockEnd] at h
+  | cons x l ih =>
+    intro e h
+    cases l with
+    | nil => simp [blockEnd] at h
+    | cons y a =>
+      rw [blockEnd_cons_cons] at h
+      split at h
+      · rename_i hxy
+        simp only [Option.some.injEq] at h
+        subst h
+        exact ⟨[], by simp [hxy.1, hxy.2]⟩
+      · cases hb : blockEnd (y :: a) with
+        | none => rw [hb] at h; simp at h
+        | some e' =>
+          rw [hb] at h
+          simp only [Option.map_some, Option.some.injEq] at h
+          subst h
+          obtain ⟨body, hbody⟩ := ih e' hb
+          exact ⟨x :: body, by rw [List.take_succ_cons, hbody]; rfl⟩
 
 theorem scan_skip_spec (c : Char) (cs : List Char) (n : Nat) (h : scan K c cs = .skip n) :
     isTrivia K (c :: cs.take n) := by
@@ -552,7 +605,11 @@ theorem scan_skip_spec (c : Char) (cs : List Char) (n : Nat) (h : scan K c cs = 
     exact Or.inl ⟨c, by simp, h1⟩
   rw [if_neg h1] at h
   by_cases h2 : c = '#'
-  · exact Or.inr (Or.inl ⟨_, by rw [h2]⟩)
+  · rw [if_pos h2] at h
+    simp only [Scan.skip.injEq] at h; subst h
+    refine Or.inr (Or.inl ⟨_, _, by rw [h2, lineComment_take], ?_, ?_⟩)
+    · exact all_takeWhile _ _
+    · exact all_takeWhile _ _
   rw [if_neg h2] at h
   by_cases h3 : c = ','
   · simp [h3] at h
@@ -608,7 +665,8 @@ theorem scan_skip_spec (c : Char) (cs : List Char) (n : Nat) (h : scan K c cs = 
               · simp only [Option.some.injEq] at hm; omega
               · simp at hm
             · simp at hm; omega
-          exact Or.inr (Or.inr ⟨List.take e cs', by rw [hc, hme, Nat.add_comm 1 e, List.take_succ_cons]⟩)
+          obtain ⟨body, hbody⟩ := blockEnd_take cs' e he
+          exact Or.inr (Or.inr ⟨body, by rw [hc, hme, Nat.add_comm 1 e, List.take_succ_cons, hbody]⟩)
         · simp at hm
       · simp at hm
     · simp at hm
